@@ -4,6 +4,12 @@ import json, os
 HERE = os.path.dirname(os.path.abspath(__file__))
 
 CHECKS = {
+ "C04": ("deterministic simulation: librfn compiled with TSan instrumentation against an own runtime; sender/receiver contexts preempted at every atomic operation and payload access under seeded random/PCT/k-preemption/stall schedules and nested interrupts; ownership automaton, claim-order and interval oracles",
+         "Seeded search over interleavings at atomic-operation granularity of 1-4 senders (claim, write, send) and one receiver (receive, check, release) for queue depths 1-32 with the queue full most of the time, both as free-running threads under four scheduling strategies and as run-to-completion interrupt handlers nested to depth 2; an ownership automaton per buffer, exactly-once/intact/claim-order checks, an interval oracle for refusals (counting claims in progress) and conservation at quiescence decide every run.",
+         "Interleavings are sequentially consistent (C07 covers the memory-order argument); preemption granularity is atomic operations, accesses to shared regions and explicit points between API calls; sampling, not enumeration."),
+ "C05": ("deterministic simulation: TSan-instrumented ringbuf.c against an own runtime; producer and consumer preempted at every atomic operation and ring-storage access under seeded thread schedules and interrupts in either direction; FIFO, interval and bounds oracles",
+         "Seeded search over interleavings of one producer (ringbuf_put, spinning ringbuf_putchar) and one consumer (ringbuf_get, ringbuf_empty) for ring lengths 2-17, 64, 255, 256, 4096 with pre-rotated indices: free-running threads under four strategies and interrupt-style run-to-completion preemption in both directions; byte-exact FIFO equality, interval oracles for refused puts and empty reports, and a bounds monitor over every plain access the ring code makes decide every run.",
+         "Sequentially consistent interleavings; ringbuf_putchar is only used where its documented deadlock cannot arise (threads with a consumer that keeps consuming)."),
  "C01": ("seeded scheduler histories (outside calls and scripted protothread fibres) in lock step with a reference scheduler; library restart by data-segment restore; tape shrinking and exact replay",
          "Seeded exploration of histories of fibre_run / fibre_run_atomic / fibre_kill / fibre_scheduler_next(t) issued from outside and from inside 1-6 real protothread fibres that return yielded/waiting/exited/failed, with kill, spurious-run, queue-full and clock-stall faults, followed by a fault-free flush to quiescence; which fibre each pass dispatches, start-versus-resume, fibre_self and every return value are compared with a reference scheduler written from the statement (no fast path).",
          "Sequential mode: interrupt-context requests arrive between API calls only (their interleaving inside calls belongs to C06). The generator keeps to the property's scope (one unsatisfied timeout per dispatch, at most 8 undrained requests unless the queue-full fault is on, small time base)."),
